@@ -513,6 +513,38 @@ TEMPLATES = [
 ]
 
 
+VACUOUS = [
+    ("required", []), ("properties", {}), ("patternProperties", {}), ("dependencies", {}), ("items", {}),
+    ("items", True), ("additionalProperties", True), ("additionalProperties", {}), ("additionalItems", True),
+    ("minLength", 0), ("minItems", 0), ("minProperties", 0), ("uniqueItems", False), ("allOf", [{}]),
+    ("allOf", [True]), ("anyOf", [{}]), ("oneOf", [{}]), ("propertyNames", {}),
+    ("propertyNames", True), ("not", False), ("definitions", {}), ("title", ""), ("description", ""),
+]
+
+
+def add_vacuous(rng, schema_doc, count=2):
+    """Keywords carrying their NEUTRAL value (an empty `required`, `properties: {}`, `allOf: [{}]`,
+    `additionalProperties: true`, `minLength: 0` ...): valid, constraining nothing, and exactly what a
+    serializer, a normal form or an equality test is tempted to drop in one place and keep in another. Added in
+    place at random schema positions where the keyword is absent."""
+    from vlib import refmodel  # pylint: disable=import-outside-toplevel
+
+    nodes = [node for node in refmodel.walk_schemas(schema_doc) if "$ref" not in node]
+    added = 0
+    for _ in range(count * 3):
+        if not nodes or added >= count:
+            break
+        node = rng.choice(nodes)
+        key, val = rng.choice(VACUOUS)
+        if key in node or (key == "title" and node.get("type") == "object"):
+            continue
+        if key == "definitions" and node is not schema_doc:
+            continue
+        node[key] = copy.deepcopy(val)
+        added += 1
+    return added
+
+
 def any_schema(rng, opts=None, template_share=0.4):
     opts = opts or Opts()
     if rng.random() < template_share:
